@@ -100,3 +100,11 @@ CLAIMS["C16"] = (
     "enclosing handler or FAIL; the retargeted transition consumes exactly at the start state and re-examines the byte elsewhere; wait wraps any match "
     "and forwards its actions. Passing says the mechanism is wired as designed, not that the result equals the restart automaton for every pattern.",
     "Trusted: builder-chain recogniser. Not decided: restart-automaton equivalence; effects of later optimisation passes on the retargeted machine.")
+CLAIMS["C09"] = (
+    "refusal-guard recognition at the frozen conflict sites (condition intact, true-arm raises a diagnosed error, no repair first, not under a debug flag)",
+    "Static, necessary conditions only: 'ambiguity, once detected, is refused and never resolved silently'. At each conflict site (join test of "
+    "append_after, duplicate transition, three case-finish conflicts, optional, loop exit, duplicate regex transition) the documented condition is intact "
+    "and its true-arm raises an NMFUError subclass on every path; the join test recomputes its per-end-state quantities and widens Else for every "
+    "chained transition; the greedy tie test counts finishers at the maximum priority; silent-replacement sites are enumerated. It does NOT decide that "
+    "every ambiguous program trips one of these tests (completeness is a fact about the built machines).",
+    "Trusted: the list of conflict sites (from the property's anchors, confirmed by reading). Not decided: completeness of the conflict tests.")
